@@ -260,6 +260,7 @@ func cmdIngress(args []string) error {
 		}
 		for q := 0; q < *nreq; q++ {
 			req := genRouteRequest(r)
+			hdrBefore := sortedPairs(req.Header.Clone())
 			cleaned := path.Clean(req.URL.Path)
 			resolved, ok := rt.ResolveIngress(req, cleaned)
 			allow := rt.AllowedMethodsFor(req, cleaned)
@@ -277,7 +278,7 @@ func cmdIngress(args []string) error {
 			if allow == nil {
 				allow = []string{}
 			}
-			jr := jreq{RawPath: req.URL.Path, Path: cleaned, Method: req.Method, Host: req.Host, Headers: sortedPairs(req.Header), Query: sortedPairs(req.URL.Query()),
+			jr := jreq{RawPath: req.URL.Path, Path: cleaned, Method: req.Method, Host: req.Host, Headers: hdrBefore, Query: sortedPairs(req.URL.Query()),
 				Remote: remoteIPOf(req.RemoteAddr), RemoteS: req.RemoteAddr}
 			got := map[string]interface{}{"resolved": nil, "allow": allow, "status": rec.Code, "allowHeader": rec.Header().Get("Allow"), "enqueued": enq}
 			if ok {
